@@ -161,6 +161,15 @@ def invKey (a s : Nat) (i : Invocation V) : Bool := i.sender == some a && i.seri
 
 def complKey (s : Nat) (x : Nat × Outcome V) : Bool := x.1 == s
 
+def Outcome.isTimeout : Outcome V → Bool
+  | .timedOut => true
+  | _ => false
+
+/-- a completion of serial `s` brought about by a reply (not by the deadline) -/
+def complReplyKey (s : Nat) (x : Nat × Outcome V) : Bool := x.1 == s && !x.2.isTimeout
+
+def lateKey (s : Nat) (x : Nat) : Bool := x == s
+
 /-! ### `Net.upd` -/
 
 @[simp] theorem Net.upd_n (net : Net V) (c : Nat) (f : Client V → Client V) : (net.upd c f).n = net.n := rfl
